@@ -46,7 +46,7 @@ macro_rules! m1_batch {
                 m1_square($rook, sq);
                 sq += 1;
             }
-            kani::cover!(true, "batch completed");
+            crate::vcover!(true, "batch completed");
         }
     };
 }
